@@ -1,6 +1,7 @@
 package props
 
 import (
+	"go/token"
 	"fmt"
 	"strings"
 
@@ -167,13 +168,49 @@ func checkOrderTaint(c *fw.Ctx) {
 	}
 	nsinks := 0
 	nsrc := 0
-	for _, spec := range fw.SortedKeys(entries) {
-		fn := mustFunc(c, rule, spec)
-		if fn == nil {
-			continue
-		}
-		sinks := fw.OrderTaint(fn, unordered, entries[spec])
+	// unexported helpers that hand back an unordered sequence when given one (found while analysing)
+	extraUnordered := map[string]bool{}
+	unordered2 := func(n string) bool { return unordered(n) || extraUnordered[n] }
+	visited := map[string]bool{}
+	var analyse func(fn *ssa.Function, params map[string]bool, depth int) (returnsTainted bool)
+	analyse = func(fn *ssa.Function, params map[string]bool, depth int) bool {
 		name := fw.FuncName(fn)
+		key := name + "|" + strings.Join(sortedSet(params), ",")
+		if visited[key] {
+			return false
+		}
+		visited[key] = true
+		returnsTainted := false
+		var sinks []fw.OrderSink
+		for pass := 0; pass < 3; pass++ {
+			sinks = fw.OrderTaint(fn, unordered2, params)
+			grew := false
+			for _, s := range sinks {
+				if s.Kind != "call" {
+					continue
+				}
+				if _, known := orderSanitisers[s.Target]; known || strings.HasPrefix(s.Target, "slices.Sort") || strings.Contains(s.Target, "go-set/v3.") {
+					continue
+				}
+				// an unexported helper: follow the sequence into it
+				ci, _ := s.Instr.(ssa.CallInstruction)
+				cc, isCall := s.Instr.(*ssa.Call)
+				if ci == nil || !isCall || depth >= 3 {
+					continue
+				}
+				callee := fw.Followable(cc, nil)
+				if callee == nil || (callee.Object() != nil && callee.Object().Exported()) || s.ArgIdx < 0 || s.ArgIdx >= len(callee.Params) {
+					continue
+				}
+				if analyse(callee, setOf(callee.Params[s.ArgIdx].Name()), depth+1) && !extraUnordered[s.Target] {
+					extraUnordered[s.Target] = true
+					grew = true
+				}
+			}
+			if !grew {
+				break
+			}
+		}
 		for _, s := range sinks {
 			nsinks++
 			pos := c.P.Pos(fw.InstrPos(s.Instr))
@@ -187,12 +224,28 @@ func checkOrderTaint(c *fw.Ctx) {
 					reason, ok = "P1: set keyed by event ID", true
 				}
 				construct := fmt.Sprintf("%s: unordered sequence -> %s", strings.TrimPrefix(name, "gmsl."), strings.TrimPrefix(s.Target, "gmsl."))
-				if ok {
+				followed := false
+				if cc, isCall := s.Instr.(*ssa.Call); isCall && !ok {
+					if callee := fw.Followable(cc, nil); callee != nil && (callee.Object() == nil || !callee.Object().Exported()) && depth < 3 {
+						followed = true
+					}
+				}
+				switch {
+				case ok:
 					c.Ok(rule, construct, pos, reason+" ["+s.Why+"]")
-				} else {
+				case followed:
+					c.Ok(rule, construct, pos, "unexported helper: the sequence is followed into it ["+s.Why+"]")
+				case strings.HasPrefix(s.Target, "gmsl.") || strings.HasPrefix(s.Target, "(*gmsl.") || strings.HasPrefix(s.Target, "(gmsl."):
+					// a repository function the rule has no summary for
+					c.Undecided(rule, construct, fmt.Sprintf("a sequence with unspecified order (%s) is passed to %s, for which the rule has no summary", s.Why, s.Target))
+				default:
 					c.Fail(rule, construct, pos, fmt.Sprintf("a sequence with unspecified order (%s) is passed to %s, which is not a canonicaliser (total-order sort), an identity-keyed insertion or an ordering routine: the result may depend on map iteration / input order", s.Why, s.Target))
 				}
 			case "return":
+				if depth > 0 {
+					returnsTainted = true
+					continue
+				}
 				reason, ok := orderExemptReturns[s.Target]
 				// ordering entry points return their canonical output through sanitised values only
 				construct := fmt.Sprintf("%s returns an unordered sequence", strings.TrimPrefix(name, "gmsl."))
@@ -226,6 +279,14 @@ func checkOrderTaint(c *fw.Ctx) {
 		if len(sinks) > 0 {
 			nsrc++
 		}
+		return returnsTainted
+	}
+	for _, spec := range fw.SortedKeys(entries) {
+		fn := mustFunc(c, rule, spec)
+		if fn == nil {
+			continue
+		}
+		analyse(fn, entries[spec], 0)
 	}
 	c.Count("order_sinks", nsinks)
 	c.Min(rule+" sinks", nsinks, 10)
@@ -235,7 +296,7 @@ func checkOrderTaint(c *fw.Ctx) {
 			for _, call := range fw.CallsTo(fn, false, fw.NameIs("(*gmsl.stateResolverV2).authAndApplyEvents")) {
 				s := fw.Sig(call.Common().Args[1])
 				ok := strings.HasPrefix(s, "(*gmsl.stateResolverV2).reverseTopologicalOrdering(") || strings.HasPrefix(s, "(*gmsl.stateResolverV2).mainlineOrdering(")
-				c.Check(ok, rule, spec+": iterative auth checks run over a canonical order", c.P.Pos(call.Pos()), "", "authAndApplyEvents receives "+s)
+				c.Expect(ok, rule, spec+": iterative auth checks run over a canonical order", c.P.Pos(call.Pos()), "", "authAndApplyEvents receives "+s)
 			}
 		}
 	}
@@ -295,6 +356,44 @@ func checkKahnSorts(c *fw.Ctx) {
 		c.Min(rule+" "+spec+" sorts", len(sorts), 1)
 		c.Min(rule+" "+spec+" pushes", len(pushes), 1)
 	}
+	// in-degree counters: an entry may be created with 0, but a count that has already been
+	// incremented (an ancestor seen as somebody's dependency before its own turn) is never reset
+	for _, spec := range []string{"kahnsAlgorithmUsingAuthEvents", "kahnsAlgorithmUsingPrevEvents"} {
+		fn := c.P.Func(spec)
+		if fn == nil {
+			continue
+		}
+		for _, rf := range fw.RegionOf(fn, nil) {
+			counters := map[string]bool{}
+			for _, b := range rf.Blocks {
+				for _, ins := range b.Instrs {
+					if mu, ok := ins.(*ssa.MapUpdate); ok {
+						if bo, isB := mu.Value.(*ssa.BinOp); isB && bo.Op == token.ADD && strings.HasPrefix(fw.Sig(bo.X), fw.Sig(mu.Map)+"[") {
+							counters[fw.Sig(mu.Map)] = true
+						}
+					}
+				}
+			}
+			for _, b := range rf.Blocks {
+				for _, ins := range b.Instrs {
+					mu, ok := ins.(*ssa.MapUpdate)
+					if !ok || !counters[fw.Sig(mu.Map)] {
+						continue
+					}
+					if n, isC := fw.ConstInt(mu.Value); !isC || n != 0 {
+						continue
+					}
+					guarded := false
+					for _, f := range fw.DomConds(b) {
+						if !f.Taken && strings.HasPrefix(f.Sig, fw.Sig(mu.Map)+"[") && strings.HasSuffix(f.Sig, "#1") {
+							guarded = true
+						}
+					}
+					c.Check(guarded, rule, spec+": an in-degree entry is initialised only when it does not exist yet", c.P.Pos(fw.InstrPos(mu)), "", "the in-degree of "+fw.Sig(mu.Key)+" is set to 0 unconditionally: a count already accumulated from events listed earlier is wiped, so an ancestor can be emitted together with (or after) its descendants")
+				}
+			}
+		}
+	}
 	if fn := mustFunc(c, rule, "(*stateResolverV2).mainlineOrdering"); fn != nil {
 		n := 0
 		for _, call := range fw.Calls(fn) {
@@ -313,6 +412,25 @@ func checkKahnSorts(c *fw.Ctx) {
 			for _, r := range fw.Returns(fn) {
 				if s := fw.Sig(r.Results[0]); strings.HasPrefix(s, "strings.Compare(*param:a.eventID") {
 					n++
+				}
+			}
+			// the cmp.Or spelling: the last key of the chain is the event ID
+			if seq, ok := cmpOrChain(fn); ok && len(seq) > 0 && strings.HasPrefix(seq[len(seq)-1], "eventID:") {
+				n = 1
+			}
+			if n == 0 {
+				// neither spelling recognised: is there any comparison of the event IDs at all?
+				anyID := false
+				for _, call := range fw.Calls(fn) {
+					for _, a := range call.Common().Args {
+						if strings.Contains(fw.Sig(a), ".eventID") {
+							anyID = true
+						}
+					}
+				}
+				if anyID {
+					c.Undecided(rule, spec+" is total on distinct event IDs (falls back to comparing the IDs)", "the comparator compares event IDs but its shape is not recognised")
+					continue
 				}
 			}
 			c.Check(n == 1, rule, spec+" is total on distinct event IDs (falls back to comparing the IDs)", c.P.Pos(fn.Pos()), "", "the comparator can return 0 for two distinct events")
@@ -396,28 +514,37 @@ func checkAgreedState(c *fw.Ctx) {
 		if fn == nil {
 			continue
 		}
-		calls := fw.CallsTo(fn, false, fw.NameIs("(*gmsl.stateResolverV2).applyEvents"))
-		auths := fw.CallsTo(fn, false, fw.NameIs("(*gmsl.stateResolverV2).authAndApplyEvents"))
-		var last ssa.CallInstruction
-		for _, call := range calls {
-			after := true
+		applyN, authN := "(*gmsl.stateResolverV2).applyEvents", "(*gmsl.stateResolverV2).authAndApplyEvents"
+		stop := func(f *ssa.Function) bool {
+			n := fw.FuncName(f)
+			return stopExported(f) || n == applyN || n == authN || strings.HasSuffix(n, "TopologicalOrdering") || strings.HasSuffix(n, "mainlineOrdering")
+		}
+		calls := fw.DeepCalls(fn, fw.NameIs(applyN), stop)
+		auths := fw.DeepCalls(fn, fw.NameIs(authN), stop)
+		var last *fw.DeepCall
+		for i := range calls {
+			after := len(auths) > 0
 			for _, a := range auths {
-				if !reaches(a, call) || reaches(call, a) {
+				if canRunBefore(calls[i], a) {
 					after = false
 				}
 			}
 			if after {
-				last = call
+				last = &calls[i]
 			}
 		}
 		if last == nil {
-			c.Fail(rule, spec+": the unconflicted state is re-applied after all auth checks", c.P.Pos(fn.Pos()), "no applyEvents call follows the last iterative auth stage")
+			if len(calls) == 0 || len(auths) == 0 {
+				c.Undecided(rule, spec+": the unconflicted state is re-applied after all auth checks", fmt.Sprintf("%d applyEvents and %d authAndApplyEvents calls recognised", len(calls), len(auths)))
+			} else {
+				c.Fail(rule, spec+": the unconflicted state is re-applied after all auth checks", c.P.Pos(fn.Pos()), "no applyEvents call follows the last iterative auth stage")
+			}
 			continue
 		}
-		conds := stageConds(last.Block())
-		c.Check(conds == "", rule, spec+": the unconflicted state is re-applied after all auth checks, unconditionally", c.P.Pos(last.Pos()), "", "the final re-application only happens when ["+conds+"]: a conflicted or auth-difference event with the same key can replace the event all state sets agree on")
-		arg := fw.Sig(last.Common().Args[1])
-		c.Check(strings.Contains(arg, "unconflicted") || strings.Contains(arg, "splitConflictedUnconflicted(param:stateResAlgo,param:stateSets)#1"), rule, spec+": what is re-applied is the unconflicted state", c.P.Pos(last.Pos()), arg, "re-applied list is "+arg)
+		conds := stageCondsDeep(*last)
+		c.Check(conds == "", rule, spec+": the unconflicted state is re-applied after all auth checks, unconditionally", c.P.Pos(last.Call.Pos()), "", "the final re-application only happens when ["+conds+"]: a conflicted or auth-difference event with the same key can replace the event all state sets agree on")
+		arg := fw.SigIn(last.Fr, last.Call.Common().Args[1])
+		c.Expect(strings.Contains(arg, "unconflicted") || strings.Contains(arg, "splitConflictedUnconflicted(param:stateResAlgo,param:stateSets)#1"), rule, spec+": what is re-applied is the unconflicted state", c.P.Pos(last.Call.Pos()), arg, "re-applied list is "+arg)
 	}
 	// split: an event is unconflicted only if its key has one candidate and (v2+) every state set has it
 	if fn := mustFunc(c, rule, "splitConflictedUnconflicted"); fn != nil {
@@ -428,7 +555,7 @@ func checkAgreedState(c *fw.Ctx) {
 				ok = true
 			}
 		}
-		c.Check(ok, rule, "unconflicted means present in every state set", c.P.Pos(fn.Pos()), "", "no comparison of the occurrence count with len(stateSets)")
+		c.Expect(ok, rule, "unconflicted means present in every state set", c.P.Pos(fn.Pos()), "", "no comparison of the occurrence count with len(stateSets) was recognised")
 	}
 }
 
